@@ -193,7 +193,13 @@ def hSysU : Handler := fun impl => do
            | none => [])) ++
         (match o.noCopy with
          | some v2 => if holdsC20Invisible o.view v2 then [] else ["bad:C20:copy-rule-changes-client-response"]
-         | none => [])
+         | none => []) ++
+        -- C20: the copy destination and the proxy destination receive the same method and body
+        (if copy.isSome ∧ main.isSome ∧ !fallbackTaken then
+           (match (o.contacts.filter (!·.failed)) with
+            | c0 :: rest => if rest.all (fun c => c.method == c0.method && c.body == c0.body) then [] else ["bad:C20:copy-and-proxy-destination-receive-different-requests"]
+            | [] => [])
+         else [])
       if bad.isEmpty then "ok" else ",".intercalate bad
   let label :=
     (match rr with
